@@ -613,6 +613,7 @@ func extractC03() *lean {
 	c03FsListFacts(l)
 	c03ExternalFacts(l)
 	c03ConfigFacts(l)
+	c03ExportFacts(l)
 	return l
 }
 
